@@ -200,7 +200,11 @@ def run_case(case, ctx):
             ekind, eparams, election = "ProbeElection", {}, ProbeElection()
     emodel = ElectionModel(ekind, eparams, nm)
     Ens = StreamingEnsemble if stream else BatchEnsemble
-    ens = Ens(dict(members), election, dict(selectors))
+    passed_members, passed_selectors = dict(members), dict(selectors)
+    ens = Ens(passed_members, election, passed_selectors)
+    # what the caller does with its own dicts afterwards (e.g. re-using them for a second ensemble) is not the ensemble's business
+    passed_members["zz_added_by_the_caller_later"] = zoo.make("ADWIN", zoo.draw_params("ADWIN", np.random.default_rng(0)))
+    passed_selectors.pop(next(iter(passed_selectors)), None) if passed_selectors else None
     ctx.count("histories:" + ekind)
     # ---- workload: X with level shifts per column at different times; labels with shifting error rate
     if stream:
@@ -218,18 +222,35 @@ def run_case(case, ctx):
         for _ in range(int(rng.integers(0, 3))):
             pos = int(rng.integers(2, len(steps)))
             steps.insert(pos, ("reset", None) if rng.random() < 0.4 else ("set_reference", int(rng.integers(0, len(batches)))))
+        if rng.random() < 0.3:
+            # reset straight after a (re-)baselining, before any update; sometimes twice in a row
+            pos = 1 + [s[0] for s in steps[1:]].index("update") if "update" in [s[0] for s in steps[1:]] else 1
+            steps[pos:pos] = [("reset", None)] * int(rng.integers(1, 3))
+            ctx.count("resets_straight_after_set_reference")
         # after an explicit reset batch detectors need a reference again before the next update
         fixed = []
         for s in steps:
+            if s[0] == "reset" and fixed and fixed[-1][0] == "set_reference" and fixed[-1] is not steps[0] and len(fixed) > 1 and fixed[-2][0] == "reset":
+                fixed.pop()  # reset, (forced) set_reference, reset: keep the two resets adjacent
             fixed.append(s)
             if s[0] == "reset":
                 fixed.append(("set_reference", int(rng.integers(0, len(batches)))))
         steps = fixed
     total = since = 0
     drift_steps = {mid: set() for mid in members}
+    swap_at = int(rng.integers(20, len(steps))) if (stream and len(steps) > 40 and rng.random() < 0.2) else None
     for si, (op, idx) in enumerate(steps):
         base = dict(members=[(mid, names[mid], params_all[mid]) for mid in members], election=[ekind, eparams], step=si, op=op,
                     selectors={mid: s.cols for mid, s in selectors.items()})
+        if si == swap_at:
+            # the user replaces one member by a freshly built detector under the same key (the members are a public dict): from now on
+            # the ensemble must work with - and report - the new object
+            mid = list(members)[int(rng.integers(0, len(members)))]
+            for store in (members, twins):
+                store[mid] = zoo.make(names[mid], params_all[mid])
+                seeded(store[mid], "update", (key, mid, "swapped"))
+            ens.detectors[mid] = members[mid]
+            ctx.count("members_replaced_under_the_same_key")
         if op == "reset":
             ens.reset()
             for t in twins.values():
